@@ -223,4 +223,28 @@ def admit (c : Chain) (p : Pool) (t : Tx) : Option Err :=
           if !verifyAttrs c t then some .invalidAttr
           else poolAdd p t
 
+/-! ### block packing: `ApplyPolicyToTxSet` (blockchain.go:2840-2874) -/
+
+/-- the limits and the size of a block without transactions and without the transaction count prefix
+(`GetExpectedBlockSizeWithoutTransactions(0) - 1` for the default block witness; as written it does not
+count `PrevStateRoot`). -/
+structure PackCfg where
+  maxTx : Nat            -- MaxTransactionsPerBlock, 0 = unlimited
+  maxBlockSize : Nat
+  maxBlockSysFee : Nat
+  overhead : Nat
+
+/-- the loop over (size, system fee) pairs: stop before the first transaction that breaks a limit. -/
+def packLoop (cfg : PackCfg) : Nat → Nat → List (Nat × Nat) → List (Nat × Nat)
+  | _, _, [] => []
+  | size, fee, t :: ts =>
+    let size' := size + t.1
+    let fee' := fee + t.2
+    if size' > cfg.maxBlockSize ∨ fee' > cfg.maxBlockSysFee then [] else t :: packLoop cfg size' fee' ts
+
+/-- `ApplyPolicyToTxSet` on the pool's transactions in pool order, as (size, system fee) pairs. -/
+def applyPolicy (cfg : PackCfg) (txs : List (Nat × Nat)) : List (Nat × Nat) :=
+  let txs := if cfg.maxTx ≠ 0 ∧ txs.length > cfg.maxTx then txs.take cfg.maxTx else txs
+  packLoop cfg (cfg.overhead + NeoModel.Wire.varUintSize txs.length) 0 txs
+
 end NeoModel.Admission
